@@ -61,17 +61,17 @@ var Check = &run.Check{
 	ID:    "C18",
 	Level: "exploration",
 	Rule: "case index mod 15 selects the sub-check. 0-9: synthetic call model (modelgen: random/dag/tree/chain/cycle/fan-in/mutual/dense graphs with repeated calls, self calls, calls without receiver type, " +
-		"calls to external and to undeclared methods of project classes, object creations, classes in the default package (empty package name); in every second model call records carry real-looking positions: one caller calls the SAME callee 2-3 times on ONE line at different columns, adjacent or with another call in between) every third model gets CALLED case twins (method getUrl/getURL in one class, or class IoUtil/IOUtil with a method of the same name) with different counts) -> count.BuildCallMap, and string_helper.SortWord over it five times in one process (same rows, same order), every Nth through `coca count -d deps.json` twice (+ `-t k`). " +
-		"10-11: generated Java project (1-6 files, one class each: *Util/*Utils classes with static methods only, also named *ServiceUtil(s)/ServiceUtils/WebServiceUtil, *UtilImpl/*UtilsV2/*UtilsImpl/*UtilHelper and Util*, *Service classes, ordinary and abstract classes; about one class in seven has no package line; methods with every subset of " +
+		"calls to external and to undeclared methods of project classes, object creations, overloaded names (one full name declared twice, called), classes in the default package (empty package name); in every second model call records carry real-looking positions: one caller calls the SAME callee 2-3 times on ONE line at different columns, adjacent or with another call in between) every third model gets CALLED case twins (method getUrl/getURL in one class, or class IoUtil/IOUtil with a method of the same name) with different counts) -> count.BuildCallMap, and string_helper.SortWord over it five times in one process (same rows, same order), every Nth through `coca count -d deps.json` twice (+ `-t k`). " +
+		"10-11: generated Java project (1-6 files, one class each: *Util/*Utils classes with static methods only, also named *ServiceUtil(s)/ServiceUtils/WebServiceUtil, *UtilImpl/*UtilsV2/*UtilsImpl/*UtilHelper and Util*, *Service classes, ordinary and abstract classes; about one class in seven has no package line; about one class in three declares an overload (same name, one more parameter) that the planted calls also use; methods with every subset of " +
 		"{public|private|protected, static, final, synchronized} or {public|protected, abstract} in random order, annotations before or between the keywords; bodies returning null as the only/first/middle/last return " +
 		"statement, nested in for/while/try/switch/else; @Nullable/@CheckForNull as only/first/middle/last annotation or after a keyword; both annotations on one method; annotation plus return null; null returned on two paths; the only null being the else / then / innermost else branch of a returned conditional expression (`return ok ? v : null;`), with a null-free conditional return as control; decoys: null outside return statements, @Nonnull, boolean `return p == null`; " +
 		"bodies start with unqualified calls of same-class methods, one per line or the same callee 2-3 times on one line) " +
 		"-> JavaIdentifierApp + JavaFullApp -> evaluate.Analyser.Analysis, every Nth through `coca analysis -p DIR` + `coca evaluate` (coca_reporter/evaluate.json); the analysed model of every project also goes through count.BuildCallMap / `coca count` and is compared with its own recorded call entries. " +
-		"12-14: classes whose method names are plain camel case over 40 ordinary words, 6 ordinary words that begin with get/set (setup, setback, settle, getaway, settings, getter; alone, first or later segment), 12 English function words and digit groups -> concept.ConceptAnalyser.Analysis, every Nth through `coca concept -d deps.json`. " +
+		"12-14: classes whose method names are plain camel case over 40 ordinary words, 6 ordinary words that begin with get/set (setup, setback, settle, getaway, settings, getter; alone, first or later segment), 12 English function words and digit groups of 1-25 digits (also beyond the int64 range) -> concept.ConceptAnalyser.Analysis, every Nth through `coca concept -d deps.json`. " +
 		"non-trivial = model: some declared method has >= 2 call sites and some call goes to an undeclared name; project: >= 2 classes, a static method with >= 2 modifiers and a nullable method; " +
 		"names: >= 3 words of which one is a stop word; distinct = hash of (kind, structure without names)",
 	Assumptions: []string{
-		"every method full name is declared once (overloads are out of scope, DESIGN §7); class simple names are unique inside a project",
+		"overloads share one full name (package.Class.method) and the count map is keyed by that name, so for a name declared more than once the expected count is the number of recorded call sites naming it - every call site resolves to exactly one method, hence the sum over the declarations cannot exceed it; which overload a site means is not decided. Two nullable overloads of one name are not generated. Class simple names are unique inside a project",
 		"generated classes have no constructors, no inner types, and there are no interfaces or enums: whether those count as methods/classes is not settled by the statement",
 		"a utility class is generated only in the unambiguous shape (the name has the word Util/Utils as a camel-case segment - last, first or in the middle as in DateUtilImpl - and the class has nothing but static methods); every other class has an instance method and no 'util' in its name",
 		"return expressions never contain an identifier or string with the letters 'null'; a returned conditional expression has the null literal only as a whole branch and never in its condition (guards such as `p == null ? \"\" : p` are not generated: whether coca should list them is not what the statement settles)",
@@ -151,12 +151,12 @@ func parseTable(out string) (header []string, rows [][]string) {
 
 func runModel(c *run.Ctx, o *run.Outcome, seq int) {
 	r := c.Rng
-	opts := modelgen.Opts{MaxClasses: 8, MaxMethods: 40, MaxOut: 6, Quotes: true, DefaultPkg: true}
+	opts := modelgen.Opts{MaxClasses: 8, MaxMethods: 40, MaxOut: 6, Quotes: true, DefaultPkg: true, Overloads: true}
 	if r.Chance(1, 2) {
-		opts = modelgen.Opts{MaxClasses: 3, MaxMethods: 8, MaxOut: 4, Quotes: false, DefaultPkg: true}
+		opts = modelgen.Opts{MaxClasses: 3, MaxMethods: 8, MaxOut: 4, Quotes: false, DefaultPkg: true, Overloads: true}
 	}
 	if seq < 20 {
-		opts = modelgen.Opts{MaxClasses: 2, MaxMethods: 4, MaxOut: 3, Quotes: false, DefaultPkg: true}
+		opts = modelgen.Opts{MaxClasses: 2, MaxMethods: 4, MaxOut: 3, Quotes: false, DefaultPkg: true, Overloads: true}
 	}
 	m := modelgen.Generate(r.Fork(), opts)
 	sameLineGroups, sameLineSites := 0, 0
@@ -203,6 +203,19 @@ func runModel(c *run.Ctx, o *run.Outcome, seq int) {
 	o.Count("model_call_sites_to_undeclared_names", toUndeclared)
 	o.Count("model_call_sites_without_receiver", noReceiver)
 	o.Count("model_object_creations", creations)
+	nDecl := map[string]int{}
+	for _, me := range m.Methods() {
+		nDecl[me.Full()]++
+	}
+	for k, n := range nDecl {
+		if n > 1 {
+			o.Count("model_names_declared_more_than_once", 1)
+			if want[k] > 0 {
+				o.Count("model_overloaded_names_called", 1)
+				o.Count("model_call_sites_resolving_to_overloaded_names", want[k])
+			}
+		}
+	}
 	o.Count("model_called_case_twin_pairs", twinPairs)
 	if twinPairs > 0 {
 		o.Count("model_cases_with_called_case_twins", 1)
@@ -550,10 +563,10 @@ func runCount(c *run.Ctx, o *run.Outcome, dir string, args ...string) ([]oracle.
 
 func runProject(c *run.Ctx, o *run.Outcome, seq int) {
 	r := c.Rng
-	opts := evalgen.Opts{MaxClasses: 6, MaxMethods: 7, NullCompare: true, DefaultPkg: true}
+	opts := evalgen.Opts{MaxClasses: 6, MaxMethods: 7, NullCompare: true, DefaultPkg: true, Overloads: true}
 	if seq < 16 || seq%4 == 0 {
 		// small cases give small witnesses: the first violating case of a signature is the one recorded
-		opts = evalgen.Opts{MaxClasses: 1, MaxMethods: 2, NullCompare: true, DefaultPkg: true}
+		opts = evalgen.Opts{MaxClasses: 1, MaxMethods: 2, NullCompare: true, DefaultPkg: true, Overloads: true}
 	}
 	p := evalgen.Generate(r.Fork(), opts)
 	if err := evalgen.SelfCheck(p); err != nil {
@@ -574,6 +587,9 @@ func runProject(c *run.Ctx, o *run.Outcome, seq int) {
 		for _, m := range cl.Methods {
 			s += m.ModKey() + "/" + m.NullReturn + "/" + m.AnnoPos + "/" + strconv.Itoa(len(m.Calls)) + "." + strconv.Itoa(m.SameLineCalls) + ";"
 			o.Count("project_methods", 1)
+			if m.OverloadOf != "" {
+				o.Count("project_overloaded_names", 1)
+			}
 			o.Seen("modifier_orders", m.ModKey())
 			if m.Static {
 				o.Count("project_static_methods", 1)
@@ -835,6 +851,16 @@ func checkProjectCounts(o *run.Outcome, p *evalgen.Project, witness map[string]i
 			o.Count("project_planted_callees_recorded_differently", 1)
 		}
 	}
+	nDecl := map[string]int{}
+	for _, d := range declared {
+		nDecl[d]++
+	}
+	for k, n := range nDecl {
+		if n > 1 && want[k] > 0 {
+			o.Count("project_overloaded_names_called", 1)
+			o.Count("project_recorded_call_sites_of_overloaded_names", want[k])
+		}
+	}
 	o.Count("project_count_keys_expected", len(want))
 	o.Count("project_count_keys_observed", len(counts))
 	for _, mm := range oracle.EvalCheckRecordedCounts(declared, records, counts) {
@@ -873,6 +899,9 @@ func runConcept(c *run.Ctx, o *run.Outcome, seq int) {
 			}
 			s := ""
 			for _, w := range m.Words {
+				if w.Digit && len(w.Text) >= 19 {
+					o.Count("concept_digit_groups_of_19plus_digits", 1)
+				}
 				if w.Lookalike {
 					o.Count("concept_words_beginning_with_get_or_set", 1)
 				}
